@@ -89,6 +89,19 @@ def run_postponed(chk):
         chk.error(f"{fn}: expected a returning and a raising block, got {kinds}")
 
 
+def _public_api(fn):
+    """the replayers below use public API only; when the real code raises there, the property fails on that input"""
+    def run(model):
+        try:
+            return fn(model)
+        except Exception as e:
+            return {"failed": True, "witness": fn.__doc__ or fn.__name__,
+                    "description": f"{fn.__name__}: the real code raises {type(e).__name__}: {str(e)[:200]}"}
+    run.__name__ = fn.__name__
+    return run
+
+
+@_public_api
 def _replay_postponed(model):
     import warnings
     warnings.filterwarnings("ignore")
@@ -279,6 +292,7 @@ def run_update_from_calculator(chk):
         chk.error(f"{fn}: no returning path")
 
 
+@_public_api
 def _replay_ufc(model):
     """native: optimiser write-back on a model whose optimised settings include a leaf that is not a user parameter"""
     import warnings
@@ -295,11 +309,282 @@ def _replay_ufc(model):
             "description": f"after optimise the function reports lnL {a!r}; a calculator newly made from the held settings gives {b!r}"}
 
 
+# ------------------------------------------------------------------------------------------------ _updateIntermediateValues
+POS = z3.Function("pos", Defn, I)                 # position of a definition in self.defns (topological order)
+CL = z3.Function("client", Defn, I, Defn)         # k-th client of a definition
+NCL = z3.Function("n_clients", Defn, I)
+
+
+class ClientsSeq(SymSeq):
+    def __init__(self, d):
+        self.d, self.arr, self.length, self.name = d, None, NCL(d), "clients"
+
+    def at(self, i):
+        return CL(self.d, i if is_sym(i) else z3.IntVal(i))
+
+
+class UIVHooks(LoopHooks, ClassHooks):
+    def __init__(self, funcs, specs):
+        ClassHooks.__init__(self, funcs, set())
+        self.loop_specs = specs
+        self.fn_nodes = funcs
+
+    def call_name(self, eng, name, args, kw, env):
+        if name == "id" and len(args) == 1 and is_sym(args[0]) and args[0].sort() == Defn:
+            return args[0]                        # id() is injective on live objects: the object stands for its id
+        return super().call_name(eng, name, args, kw, env)
+
+    def get_attr(self, eng, obj, attr):
+        if is_sym(obj) and obj.sort() == Defn and attr == "clients":
+            return ClientsSeq(obj)
+        return super().get_attr(eng, obj, attr)
+
+    def call_method(self, eng, obj, meth, args, kw, env):
+        if isinstance(obj, Opaque) and obj.tag == "set":
+            if meth == "__contains__":
+                return z3.Select(obj.attrs["m"], args[0])
+            if meth == "add":
+                obj.attrs["m"] = z3.Store(obj.attrs["m"], args[0], True)
+                return None
+            if meth == "clear":
+                obj.attrs["m"] = z3.K(Defn, False)
+                return None
+        if is_sym(obj) and obj.sort() == Defn and meth == "update":
+            env["__upd"] = z3.Store(env["__upd"], obj, z3.Select(env["__upd"], obj) + 1)
+            return None
+        return super().call_method(eng, obj, meth, args, kw, env)
+
+
+def run_update_intermediate(chk):
+    name = "_updateIntermediateValues"
+    fn = f"recalculation.scope.ParameterController.{name}"
+    node = extract.get(FILE, f"{CLS}.{name}")
+    funcs = {name: node}
+    chk.function(FILE, f"{CLS}.{name}", "P")
+    if len(loop_nodes(node)) != 2:
+        chk.undecided.append(f"{fn}: expected two loops (definitions, clients)")
+        return
+    n = z3.Int("n")
+    defns = SymSeq(z3.Const("defns", z3.ArraySort(I, Defn)), n, "defns")
+    t, t2, k = z3.Ints("t t2 k")
+    dq = z3.Const("dq", Defn)
+    ch0 = z3.Const("changed0", z3.ArraySort(Defn, B))
+    D = defns.at
+    pre = [n >= 0,
+           z3.ForAll([t], z3.Implies(z3.And(0 <= t, t < n), POS(D(t)) == t)),                     # a list of distinct objects
+           z3.ForAll([dq], NCL(dq) >= 0),
+           # topological order: the clients of a definition come later in the list
+           z3.ForAll([t, k], z3.Implies(z3.And(0 <= t, t < n, 0 <= k, k < NCL(D(t))),
+                                        z3.And(POS(CL(D(t), k)) > t, POS(CL(D(t), k)) < n, D(POS(CL(D(t), k))) == CL(D(t), k)))),
+           # only definitions of the list are ever marked
+           z3.ForAll([dq], z3.Implies(z3.Select(ch0, dq), z3.And(0 <= POS(dq), POS(dq) < n, D(POS(dq)) == dq)))]
+
+    def state(env):
+        return env["self"].fields["_changed"].attrs["m"], env["__upd"], env["__wd"], env["__ct"], env["__ck"]
+
+    def caused(ch, wd, ct, ck, tt, bound):
+        """definition at position tt was marked by an earlier updated definition (witness ct/ck)"""
+        c_t, c_k = z3.Select(ct, tt), z3.Select(ck, tt)
+        return z3.And(0 <= c_t, c_t < bound, c_t < tt, z3.Select(wd, c_t), 0 <= c_k, c_k < NCL(D(c_t)), CL(D(c_t), c_k) == D(tt))
+
+    def outer_inv(env, j):
+        ch, upd, wd, ct, ck = state(env)
+        return z3.And(
+            # processed definitions: updated once iff they were dirty at their turn; the others not at all
+            z3.ForAll([t], z3.Implies(z3.And(0 <= t, t < j), z3.Select(upd, D(t)) == z3.If(z3.Select(wd, t), 1, 0))),
+            z3.ForAll([t], z3.Implies(z3.And(j <= t, t < n), z3.Select(upd, D(t)) == 0)),
+            # dirty at its turn <=> initially dirty or client of an earlier dirty one
+            z3.ForAll([t], z3.Implies(z3.And(0 <= t, t < j, z3.Select(wd, t)),
+                                      z3.Or(z3.Select(ch0, D(t)), caused(ch, wd, ct, ck, t, j)))),
+            z3.ForAll([t], z3.Implies(z3.And(0 <= t, t < j, z3.Select(ch0, D(t))), z3.Select(wd, t))),
+            z3.ForAll([t, k], z3.Implies(z3.And(0 <= t, t < j, z3.Select(wd, t), 0 <= k, k < NCL(D(t))),
+                                         z3.If(POS(CL(D(t), k)) < j, z3.Select(wd, POS(CL(D(t), k))), z3.Select(ch, CL(D(t), k))))),
+            # the dirty set over the definitions still to come
+            z3.ForAll([t], z3.Implies(z3.And(j <= t, t < n, z3.Select(ch0, D(t))), z3.Select(ch, D(t)))),
+            z3.ForAll([t], z3.Implies(z3.And(j <= t, t < n, z3.Select(ch, D(t)), z3.Not(z3.Select(ch0, D(t)))),
+                                      caused(ch, wd, ct, ck, t, j))),
+            z3.ForAll([dq], z3.Implies(z3.Select(ch, dq), z3.And(0 <= POS(dq), POS(dq) < n, D(POS(dq)) == dq))))
+
+    def ghost_init(env):
+        env["__upd"] = z3.K(Defn, z3.IntVal(0))
+        env["__wd"] = z3.K(I, False)
+        env["__ct"] = z3.K(I, z3.IntVal(-1))
+        env["__ck"] = z3.K(I, z3.IntVal(-1))
+        env["__j"] = z3.IntVal(-1)
+
+    def outer_ghost_update(env, j):
+        # witness: was the j-th definition dirty at its turn?  (== it has been updated by this iteration)
+        env["__wd"] = z3.Store(env["__wd"], j, z3.Select(env["__upd"], D(j)) == 1)
+
+    def havoc_self(old):
+        old.fields["_changed"] = Opaque("set", m=z3.FreshConst(z3.ArraySort(Defn, B), "changed"))
+        return old
+    gh = {"__upd": lambda o: z3.FreshConst(z3.ArraySort(Defn, I), "upd"), "__wd": lambda o: z3.FreshConst(z3.ArraySort(I, B), "wd"),
+          "__ct": lambda o: z3.FreshConst(z3.ArraySort(I, I), "ct"), "__ck": lambda o: z3.FreshConst(z3.ArraySort(I, I), "ck")}
+    outer = dict(invariant=outer_inv, modifies=["self", "__upd", "__wd", "__ct", "__ck"], ghost_init=ghost_init,
+                 ghost_update=outer_ghost_update, havoc=dict(gh, self=havoc_self))
+
+    # inner loop (clients of the definition being updated): env["defn"] is at position jj = POS(defn), just updated
+    def inner_inv(env, m):
+        ch, upd, wd, ct, ck = state(env)
+        d = env["defn"]
+        jj = POS(d)
+        wd1 = z3.Store(wd, jj, True)             # the current definition is dirty (we are inside the if)
+        return z3.And(
+            z3.Select(upd, d) == 1,
+            z3.ForAll([t], z3.Implies(z3.And(0 <= t, t < jj), z3.Select(upd, D(t)) == z3.If(z3.Select(wd, t), 1, 0))),
+            z3.ForAll([t], z3.Implies(z3.And(jj < t, t < n), z3.Select(upd, D(t)) == 0)),
+            z3.ForAll([t], z3.Implies(z3.And(0 <= t, t < jj, z3.Select(wd, t)),
+                                      z3.Or(z3.Select(ch0, D(t)), caused(ch, wd, ct, ck, t, jj)))),
+            z3.ForAll([t], z3.Implies(z3.And(0 <= t, t < jj, z3.Select(ch0, D(t))), z3.Select(wd, t))),
+            z3.ForAll([t, k], z3.Implies(z3.And(0 <= t, t < jj, z3.Select(wd, t), 0 <= k, k < NCL(D(t))),
+                                         z3.If(POS(CL(D(t), k)) <= jj, z3.Select(wd1, POS(CL(D(t), k))), z3.Select(ch, CL(D(t), k))))),
+            # the clients handled so far are marked
+            z3.ForAll([k], z3.Implies(z3.And(0 <= k, k < m), z3.Select(ch, CL(d, k)))),
+            z3.Or(z3.Select(ch0, d), caused(ch, wd, ct, ck, jj, jj)),
+            z3.ForAll([t], z3.Implies(z3.And(jj <= t, t < n, z3.Select(ch0, D(t))), z3.Select(ch, D(t)))),
+            z3.ForAll([t], z3.Implies(z3.And(jj < t, t < n, z3.Select(ch, D(t)), z3.Not(z3.Select(ch0, D(t)))),
+                                      caused(ch, wd1, ct, ck, t, jj + 1))),
+            z3.ForAll([dq], z3.Implies(z3.Select(ch, dq), z3.And(0 <= POS(dq), POS(dq) < n, D(POS(dq)) == dq))))
+
+    def inner_ghost_update(env, m):
+        # witness for a newly marked client: marked by the current definition through its m-th client edge
+        ch, upd, wd, ct, ck = state(env)
+        d = env["defn"]
+        c = CL(d, m)
+        fresh = z3.Not(z3.Or(z3.Select(ch0, c), z3.Select(env.get("__ch_before", ch), c)))
+        env["__ct"] = z3.Store(ct, POS(c), z3.If(fresh, POS(d), z3.Select(ct, POS(c))))
+        env["__ck"] = z3.Store(ck, POS(c), z3.If(fresh, m, z3.Select(ck, POS(c))))
+    inner = dict(invariant=inner_inv, modifies=["self", "__ct", "__ck"], ghost_update=inner_ghost_update,
+                 havoc={"self": havoc_self, "__ct": gh["__ct"], "__ck": gh["__ck"]})
+
+    hooks = UIVHooks(funcs, {(name, 0): outer, (name, 1): inner})
+    eng = Engine(funcs, hooks, prune_logic=None, prune_ms=300)
+    # the inner ghost update needs the dirty set as it was before the add of this iteration
+    orig_cm = hooks.call_method
+
+    def call_method(eng_, obj, meth, args, kw, env):
+        if isinstance(obj, Opaque) and obj.tag == "set" and meth == "add":
+            env["__ch_before"] = obj.attrs["m"]
+        return orig_cm(eng_, obj, meth, args, kw, env)
+    hooks.call_method = call_method
+
+    for suspended in (False, True):
+        def entry(e, suspended=suspended):
+            e.state["current_function"] = name
+            selfv = Rec(CLS)
+            selfv.fields["_update_suspended"] = suspended
+            selfv.fields["defns"] = defns
+            selfv.fields["_changed"] = Opaque("set", m=ch0)
+            e.state["self"] = selfv
+            r = e.call(name, dict(self=selfv))
+            return r
+        orig_loop = UIVHooks.loop
+
+        def loop_keep(eng_, node_, env, orig_loop=orig_loop):
+            orig_loop(hooks, eng_, node_, env)
+            if "__wd" in env:
+                eng_.state["ghost_final"] = (env["__upd"], env["__wd"], env["__ct"], env["__ck"])
+        hooks.loop = loop_keep
+        try:
+            paths = eng.run(entry, pre)
+        except Unsupported as ex:
+            chk.undecided.append(f"{fn}: UNSUPPORTED {ex}")
+            return
+        base = f"{fn}/cfg=(suspended={suspended})"
+        chk.obligation(f"{base}/cover", "cover", cover_thunk([n >= 2]), function=fn)
+        n_post = 0
+        for kk, p in enumerate(paths):
+            for j_, nm in enumerate(getattr(p, "inline", [])):
+                kind = nm.split(":")[0]
+                chk.discharged_inline(f"{base}/{nm}/path={kk}.{j_}", kind if kind.startswith("inv") else "noexcept", function=fn)
+            for nm, pc, cond in p.obligations:
+                kind = nm.split(":")[0]
+                chk.obligation(f"{base}/{nm}/path={kk}", kind if kind.startswith("inv") else "noexcept",
+                               smt_thunk(pc, cond, timeout=60, logic=None), function=fn,
+                               key=f"C07/{fn}/{nm.split('#')[0]}", replayer=_replay_uiv, device=kind.startswith("inv"))
+            if p.outcome == "raise":
+                chk.obligation(f"{base}/noexcept/path={kk}", "noexcept", smt_thunk(p.pc, z3.BoolVal(False), 20, logic=None),
+                               function=fn, key=f"C07/{fn}/noexcept", replayer=_replay_uiv)
+            if p.outcome != "return":
+                continue
+            n_post += 1
+            selfv = p.state["self"]
+            ch_after = selfv.fields["_changed"].attrs["m"]
+            if suspended:
+                # nothing is evaluated and the dirty set is kept for the end of the postponed block
+                goal = z3.And(z3.BoolVal("ghost_final" not in p.state), z3.ForAll([dq], z3.Select(ch_after, dq) == z3.Select(ch0, dq)))
+            else:
+                gf = p.state.get("ghost_final")
+                if gf is None:
+                    goal = z3.BoolVal(False)
+                else:
+                    upd, wd, ct, ck = gf
+                    U = lambda tt: z3.Select(upd, D(tt)) == 1
+                    UU = lambda tt: z3.Select(upd, D(tt)) >= 1
+                    # what the property needs: everything downstream of a dirty definition is re-evaluated
+                    essential = z3.And(
+                        z3.ForAll([t], z3.Implies(z3.And(0 <= t, t < n, z3.Select(ch0, D(t))), UU(t))),
+                        z3.ForAll([t, k], z3.Implies(z3.And(0 <= t, t < n, UU(t), 0 <= k, k < NCL(D(t))), UU(POS(CL(D(t), k))))))
+                    chk.obligation(f"{base}/post.everything-downstream-of-the-dirty-set-is-updated/path={kk}", "post",
+                                   smt_thunk(p.pc, essential, timeout=60, logic=None), function=fn, key=f"C07/{fn}/post",
+                                   replayer=_replay_uiv)
+                    goal = z3.And(
+                        z3.ForAll([dq], z3.Not(z3.Select(ch_after, dq))),                                          # dirty set empty
+                        z3.ForAll([t], z3.Implies(z3.And(0 <= t, t < n), z3.Or(z3.Select(upd, D(t)) == 0, U(t)))),   # at most once
+                        # nothing without cause: witness is an earlier updated definition
+                        z3.ForAll([t], z3.Implies(z3.And(0 <= t, t < n, U(t), z3.Not(z3.Select(ch0, D(t)))),
+                                                  z3.And(0 <= z3.Select(ct, t), z3.Select(ct, t) < t, U(z3.Select(ct, t)),
+                                                         0 <= z3.Select(ck, t), z3.Select(ck, t) < NCL(D(z3.Select(ct, t))),
+                                                         CL(D(z3.Select(ct, t)), z3.Select(ck, t)) == D(t)))))
+            chk.obligation(f"{base}/post.{'dirty-set-kept' if suspended else 'nothing-else-is-updated,at-most-once,dirty-set-emptied'}/path={kk}", "post",
+                           smt_thunk(p.pc, goal, timeout=60, logic=None), function=fn, key=f"C07/{fn}/post", replayer=_replay_uiv,
+                           device=not suspended)
+        if n_post == 0:
+            chk.error(f"{base}: no returning path")
+
+
+@_public_api
+def _replay_uiv(model):
+    """native: a rule on one parameter must re-evaluate everything downstream (lnL equals a fresh function)"""
+    import warnings
+    warnings.filterwarnings("ignore")
+    from cogent3 import get_model, make_aligned_seqs, make_tree
+    tree = make_tree("((a:0.1,b:0.2)n1:0.3,c:0.3,d:0.05);")
+    aln = make_aligned_seqs({"a": "ACGTRA-NACGA", "b": "ACGTAAYCACGT", "c": "ATGTGACCTCGA", "d": "CCGTAAGCACTA"}, moltype="dna")
+
+    def build():
+        lf = get_model("HKY85").make_likelihood_function(tree)
+        lf.set_alignment(aln)
+        return lf
+    lf = build()
+    float(lf.lnL)
+    steps = [("kappa", dict(init=3.0)), ("length", dict(edge="a", init=0.7)), ("kappa", dict(init=0.5)), ("length", dict(init=0.2))]
+    for i, (par, kw) in enumerate(steps):
+        lf.set_param_rule(par, **kw)
+        ref = build()
+        for p2, kw2 in steps[:i + 1]:
+            ref.set_param_rule(p2, **kw2)
+        a, b = float(lf.lnL), float(ref.lnL)
+        if abs(a - b) > 1e-9 * max(1, abs(a)):
+            return {"failed": True, "witness": steps[:i + 1], "description": f"after {steps[:i + 1]}: lnL {a!r}, fresh function {b!r}"}
+    with lf.updates_postponed():
+        lf.set_param_rule("kappa", init=2.0)
+        lf.set_param_rule("length", edge="b", init=0.9)
+    ref = build()
+    for p2, kw2 in steps + [("kappa", dict(init=2.0)), ("length", dict(edge="b", init=0.9))]:
+        ref.set_param_rule(p2, **kw2)
+    a, b = float(lf.lnL), float(ref.lnL)
+    return {"failed": abs(a - b) > 1e-9 * max(1, abs(a)), "witness": "rules then a postponed block",
+            "description": f"after rules and a postponed block: lnL {a!r}, fresh function {b!r}"}
+
+
 def run(chk):
     only = getattr(chk, "only", None)
     if not only or "proof" in only:
         chk.guard(run_postponed)
         chk.guard(run_update_from_calculator)
+        chk.guard(run_update_intermediate)
         chk.discharge()
     chk.assume("Calculator.change (double buffer, undo, recycled arrays) and the numerical cells are not decided by proof")
     chk.assume("definitions are abstract objects of an uninterpreted sort; update()/update_from_calculator() of a "
